@@ -194,8 +194,15 @@ func gen(std, shim, mod string, pkg *types.Package, names []string) string {
 			continue
 		case std == "os":
 			if w, ok := osWrap[n]; ok {
-				fmt.Fprintf(&b, "func %s(%s) %s {\n\tvsched.Step(%q, filepath.Base(%s))\n\treturn std.%s(%s)\n}\n\n",
-					n, w[0], osRet[n], "os."+n, w[2], n, w[1])
+				pre := ""
+				if n == "MkdirAll" {
+					pre = "\tif vsched.FastDir(path) {\n\t\treturn nil\n\t}\n"
+				}
+				if n == "ReadDir" {
+					pre = "\tif vsched.FastEmpty(name) {\n\t\treturn nil, nil\n\t}\n"
+				}
+				fmt.Fprintf(&b, "func %s(%s) %s {\n%s\tvsched.Step(%q, filepath.Base(%s))\n\treturn std.%s(%s)\n}\n\n",
+					n, w[0], osRet[n], pre, "os."+n, w[2], n, w[1])
 				continue
 			}
 		}
